@@ -12,6 +12,11 @@
      call, although Close of iteratorStream/chanStream/emptyStream does nothing;
    * SSlice/SCounter/SRepeat/SEmpty are stream.FromIterator(iterator.X): Next checks ctx.Err()
      first and then consumes nothing;
+   * SScript checks the context first like FromIterator; SScriptNC never looks at the context:
+     its Next with an expired context returns (and consumes) the next scripted event exactly as
+     with a live one.  No combinator looks at the context itself (only FromIterator does, hence
+     also the outer stream of ZFlatten), so over SScriptNC sources an expired context is noticed
+     only by Flatten when it asks its outer stream for the next inner stream;
    * SChan is stream.Chan over a closed channel.  With an expired context its `select` has two
      ready arms and Go picks either at random, so the harness never uses expired contexts with
      SChan sources; the model (arbitrarily) answers like FromIterator in that case;
@@ -32,26 +37,43 @@ Definition err_more_than_one : Z := -3.
 (* ---- sources ---- *)
 Inductive ssrc :=
 | SSIter (s : isrc)              (* FromIterator(...) / Chan *)
-| SSScript (evs : list sevent).
+| SSScript (evs : list sevent)
+| SSScriptNC (evs : list sevent). (* scripted source whose Next never looks at the context *)
 
 Definition ssrc_init (s : source) : ssrc :=
   match s with
   | SScript evs => SSScript evs
+  | SScriptNC evs => SSScriptNC evs
   | _ => SSIter (isrc_init s)
   end.
 
+(* one Next of a script: the head event is consumed unless it is a fatal error *)
+Definition script_next (evs : list sevent) : res Z * list sevent :=
+  match evs with
+  | [] => (End, [])
+  | EvItem x :: t => (Item x, t)
+  | EvTransient e :: t => (Err e, t)
+  | EvFatal e :: _ => (Err e, evs)
+  end.
+
+(* FromIterator/Chan (SSIter) and SScript look at the context first: expired => the context
+   error, nothing consumed.  SScriptNC never looks at it: [live] is ignored. *)
 Definition ssrc_next (live : bool) (s : ssrc) : res Z * ssrc :=
-  if negb live then (Err ctx_err, s)
-  else match s with
-       | SSIter i => let '(o, i') := isrc_next i in (opt_res o, SSIter i')
-       | SSScript [] => (End, s)
-       | SSScript (EvItem x :: t) => (Item x, SSScript t)
-       | SSScript (EvTransient e :: t) => (Err e, SSScript t)
-       | SSScript (EvFatal e :: _) => (Err e, s)
-       end.
+  match s with
+  | SSIter i =>
+      if negb live then (Err ctx_err, s)
+      else let '(o, i') := isrc_next i in (opt_res o, SSIter i')
+  | SSScript evs =>
+      if negb live then (Err ctx_err, s)
+      else let '(o, evs') := script_next evs in (o, SSScript evs')
+  | SSScriptNC evs => let '(o, evs') := script_next evs in (o, SSScriptNC evs')
+  end.
 
 Definition ssrc_size (s : ssrc) : nat :=
-  match s with SSIter i => isrc_size i | SSScript evs => length evs end.
+  match s with
+  | SSIter i => isrc_size i
+  | SSScript evs | SSScriptNC evs => length evs
+  end.
 
 Section Combinators.
   Context {St : Type} (nx : St -> ret Z St) (cl : St -> list sev).
